@@ -4,10 +4,11 @@ import json, glob, os
 V = os.path.dirname(os.path.abspath(__file__))
 props = [json.loads(l) for l in open(os.path.join(V, "properties.jsonl"))]
 checks, na = [], []
+enabled = set(open(os.path.join(V, "harness", "ENABLED")).read().split())
 for p in props:
     pid = p["id"]
     cj = os.path.join(V, "harness", pid, "check.json")
-    if not os.path.exists(cj):
+    if pid not in enabled or not os.path.exists(cj):
         na.append({"property_id": pid, "reason": "check not built yet (planned in DESIGN.md section 5; model checking applies)"})
         continue
     c = json.load(open(cj))
